@@ -93,6 +93,25 @@ def spell_vector(a, k):
         ("split-views", add(("mm", ("arr", tuple(float(x) for x in a[:2])), ("slice", V, 0, 2, None)),
                             mul(c(a[2]), ("idx", V, 2)), c(k))),
     ]
+    # every (vector node, constant) root shape in both operand orders: c@v op k, k op c@v, for op in + - * /
+    neg = ("arr", tuple(-float(x) for x in a))
+    half = ("arr", tuple(float(x) / 2 for x in a))
+    dbl = ("arr", tuple(float(x) * 2 for x in a))
+    out += [
+        ("root:LC+k", ("bin", "+", ("mm", arr, V), c(k))), ("root:k+LC", ("bin", "+", c(k), ("mm", arr, V))),
+        ("root:LC-k", ("bin", "-", ("mm", arr, V), c(-k))), ("root:k-LC", ("bin", "-", c(k), ("mm", neg, V))),
+        ("root:k-LC(rev)", ("bin", "-", c(k), ("mm", ("arr", neg[1][::-1]), ("slice", V, None, None, -1)))),
+    ]
+    if k == 0:
+        out += [("root:2*LC", mul(c(2), ("mm", half, V))), ("root:LC*2", mul(("mm", half, V), c(2))),
+                ("root:LC/2", ("bin", "/", ("mm", dbl, V), c(2))), ("root:-LC", ("un", "neg", ("mm", neg, V)))]
+    if len(set(a)) == 1 and a[0] in (1, -1):
+        sm = ("sum", V)
+        if a[0] == 1:
+            out += [("root:sum+k", ("bin", "+", sm, c(k))), ("root:k+sum", ("bin", "+", c(k), sm)), ("root:sum-k", ("bin", "-", sm, c(-k)))]
+        else:
+            out += [("root:k-sum", ("bin", "-", c(k), sm)), ("root:k-sum(rev)", ("bin", "-", c(k), ("sum", ("slice", V, None, None, -1)))),
+                    ("root:-sum+k", ("bin", "+", ("un", "neg", sm), c(k)))]
     if k == 0:     # bare roots: the single-node fast paths of the extractor
         out += [
             ("bare-c@v", ("mm", arr, V)), ("bare-LC", ("LC", arr, V)),
@@ -167,7 +186,7 @@ def all_cases(tier):
             for k in KS:
                 for lab, r in spell_vector(a, k):
                     yield ("con", lab, sense, "e~n"), PR.prob("min", objv, (("cmp", sense, r, c(1.5)),))
-                    if tier == "thorough" or lab.startswith("bare") or lab in ("c@v", "c@(v+1)", "rev-view", "sum-k", "k*sum", "pow1"):
+                    if tier == "thorough" or lab.startswith("bare") or lab.startswith("root:") or lab in ("c@v", "c@(v+1)", "rev-view", "sum-k", "k*sum", "pow1"):
                         yield ("con", lab, sense, "n~e"), PR.prob("min", objv, (("cmp", sense, c(1.5), r),))
                         yield ("con", lab, sense, "e~e"), PR.prob("min", objv, (("cmp", sense, r, other_v),))
     # vector / matrix constraints (one row per element), foreign variables around the vector
